@@ -21,12 +21,12 @@ type VerifProbeEvent struct {
 }
 
 var (
-	verifProbeOn  atomic.Bool
-	verifRunSeq   atomic.Int64
-	verifMu       sync.Mutex
-	verifEvents   []VerifProbeEvent
-	verifMax      int
-	verifDropped  int
+	verifProbeOn atomic.Bool
+	verifRunSeq  atomic.Int64
+	verifMu      sync.Mutex
+	verifEvents  []VerifProbeEvent
+	verifMax     int
+	verifDropped int
 )
 
 // VerifProbeStart begins recording (at most max events; further events are counted as dropped).
